@@ -1,5 +1,5 @@
 (** * C15Proofs: canary node selection ([selectNodes]). *)
-From Coq Require Import List ZArith NArith Bool Lia Permutation Sorting.Sorted.
+From Coq Require Import List ZArith NArith Bool Lia Permutation Sorting.Sorted RelationClasses.
 From EDS Require Import Model.Objects Model.Fitness Model.PodSpec Model.Canary Model.EdsLogic Proofs.Lists.
 Import ListNotations.
 Open Scope Z_scope.
@@ -222,4 +222,102 @@ Proof.
   match goal with |- context [if ?c then _ else _] => destruct c eqn:E end.
   - apply Z.ltb_lt in E. unfold name in *. lia.
   - cbn. intros x Hx. apply filter_In in Hx. tauto.
+Qed.
+
+(** ** least restarts first (without anti-affinity keys) *)
+Section Least.
+Variables (t : tmpl) (nb : Z) (pods : list pod).
+Let k (nn : name) : Z := node_restarts pods nn.
+Let key (n : node) : Z := k (n_name n).
+
+(** [base] = the names the selection started from; added = current minus base *)
+Record least_inv (base : list name) (s : sel_state) (seen rest : list node) : Prop := {
+  li_rest : forall a m, In a (ss_current s) -> ~ In a base -> In m rest -> k a <= key m;
+  li_seen : forall m, In m seen -> fit t m = true -> ~ In (n_name m) (ss_current s) ->
+              ss_done s = true /\ forall a, In a (ss_current s) -> ~ In a base -> k a <= key m;
+  li_open : ss_done s = false -> zlen (ss_current s) < nb
+}.
+
+Lemma least_step : forall base s seen n rest,
+  StronglySorted (le_key key) (n :: rest) ->
+  least_inv base s seen (n :: rest) ->
+  least_inv base (select_step t [] nb s n) (seen ++ [n]) rest.
+Proof.
+  intros base s seen n rest Hss [Hr Hs Ho].
+  assert (Hhd : forall m, In m rest -> key n <= key m).
+  { inversion Hss as [|x l Hl Hall]; subst. rewrite Forall_forall in Hall. exact Hall. }
+  unfold select_step. cbn [length Nat.eqb negb andb].
+  destruct (ss_done s) eqn:Ed.
+  - (* done: nothing changes *)
+    constructor.
+    + intros a m Ha Hb Hm. apply Hr; [assumption | assumption | right; assumption].
+    + intros m Hm Hf Hn. apply in_app_or in Hm. destruct Hm as [Hm|[<-|[]]].
+      * destruct (Hs m Hm Hf Hn) as [_ Hx]. split; [exact Ed | exact Hx].
+      * split; [exact Ed|]. intros a Ha Hb. apply Hr; [assumption | assumption | left; reflexivity].
+    + intros F. congruence.
+  - destruct (memN (n_name n) (ss_current s)) eqn:Em.
+    + constructor.
+      * intros a m Ha Hb Hm. apply Hr; [assumption | assumption | right; assumption].
+      * intros m Hm Hf Hn. apply in_app_or in Hm. destruct Hm as [Hm|[<-|[]]].
+        -- destruct (Hs m Hm Hf Hn) as [F _]. congruence.
+        -- exfalso. apply Hn. apply memN_In. assumption.
+      * intros _. apply Ho. reflexivity.
+    + destruct (fit t n) eqn:Ef; cbn [ss_current ss_done].
+      * constructor; cbn [ss_current ss_done].
+        -- intros a m Ha Hb Hm. apply in_app_or in Ha. destruct Ha as [Ha|[<-|[]]].
+           ++ apply Hr; [assumption | assumption | right; assumption].
+           ++ apply Hhd. assumption.
+        -- intros m Hm Hf Hn. apply in_app_or in Hm. destruct Hm as [Hm|[<-|[]]].
+           ++ assert (Hn' : ~ In (n_name m) (ss_current s)) by (intros F; apply Hn; apply in_or_app; left; assumption).
+              destruct (Hs m Hm Hf Hn') as [F _]. congruence.
+           ++ exfalso. apply Hn. apply in_or_app. right. left. reflexivity.
+        -- intros Hd. apply Z.eqb_neq in Hd. specialize (Ho eq_refl). rewrite zlen_app in *. cbn in *. unfold zlen in *. cbn [length] in *. lia.
+      * constructor; cbn [ss_current ss_done].
+        -- intros a m Ha Hb Hm. apply Hr; [assumption | assumption | right; assumption].
+        -- intros m Hm Hf Hn. apply in_app_or in Hm. destruct Hm as [Hm|[<-|[]]].
+           ++ destruct (Hs m Hm Hf Hn) as [F _]. congruence.
+           ++ congruence.
+        -- intros _. apply Ho. reflexivity.
+Qed.
+
+Lemma least_fold : forall base rest s seen,
+  StronglySorted (le_key key) rest -> least_inv base s seen rest ->
+  least_inv base (fold_left (select_step t [] nb) rest s) (seen ++ rest) [].
+Proof.
+  intros base rest; induction rest as [|n r IH]; intros s seen Hss Hi; cbn [fold_left].
+  - rewrite app_nil_r. exact Hi.
+  - replace (seen ++ n :: r) with ((seen ++ [n]) ++ r) by (rewrite <- app_assoc; reflexivity).
+    apply IH; [inversion Hss; assumption | apply least_step; assumption].
+Qed.
+End Least.
+
+#[local] Instance le_key_trans {A} (key : A -> Z) : Transitive (le_key key).
+Proof. intros a b c H1 H2. unfold le_key in *. lia. Qed.
+
+(** Without anti-affinity keys the nodes ADDED by a selection are taken in order of increasing restarts of their
+    daemon pods: every added node has no more restarts than any valid (listed, fit) candidate that was left out. *)
+Theorem select_least_restarts : forall t nb nodes pods previous a m,
+  let final := fst (select_nodes t [] nb nodes pods previous) in
+  let still_valid := filter (fun nn => match find (fun n => N.eqb (n_name n) nn)
+                                                  (sort_by (fun n => node_restarts pods (n_name n)) nodes) with
+                                       | Some n => fit t n | None => false end) previous in
+  In a final -> ~ In a still_valid ->
+  In m nodes -> fit t m = true -> ~ In (n_name m) final ->
+  node_restarts pods a <= node_restarts pods (n_name m).
+Proof.
+  intros t nb nodes pods previous a m final still_valid Ha Hna Hm Hf Hnm.
+  unfold final, select_nodes in *. cbn [fst] in *. fold still_valid in Ha, Hnm.
+  set (sorted := sort_by (fun n => node_restarts pods (n_name n)) nodes) in *.
+  destruct (zlen still_valid <? nb) eqn:Elt; [|contradiction].
+  cbn [length Nat.eqb] in *.
+  assert (Hss : StronglySorted (le_key (fun n => node_restarts pods (n_name n))) sorted).
+  { apply Sorted_StronglySorted; [apply le_key_trans | apply sort_by_sorted]. }
+  assert (H0 : least_inv t nb pods still_valid (MkSel still_valid [] false) [] sorted).
+  { constructor; cbn [ss_current ss_done].
+    - intros x y Hx Hb. contradiction.
+    - intros y [].
+    - intros _. apply Z.ltb_lt. assumption. }
+  pose proof (least_fold t nb pods still_valid sorted _ [] Hss H0) as [_ Hs _]. cbn [app] in Hs.
+  assert (Hms : In m sorted) by (apply (proj2 (sort_by_In _ nodes m)); exact Hm).
+  destruct (Hs m Hms Hf Hnm) as [_ Hle]. apply Hle; assumption.
 Qed.
